@@ -209,9 +209,13 @@ impl FormatStringParser<'_> {
 
         if digits > 0 {
             // All the characters are digits, so this can only fail on overflow.
-            let width = start[0..digits]
+            let width: usize = start[0..digits]
                 .parse()
                 .map_err(|e| format!("Invalid width {}: {e}", &start[0..digits]))?;
+            // (a C int in GNU find; padding to more than that would never end)
+            if width > i32::MAX as usize {
+                return Err(format!("Invalid width {}: too large", &start[0..digits]).into());
+            }
             Ok(Some(width))
         } else {
             Ok(None)
